@@ -45,7 +45,11 @@ def build(exp_model, root):
             f.write(content)
     ep = experiment.model.storage.ExperimentPackage.packageFromLocation(pkg)
     e = experiment.model.data.Experiment.experimentFromPackage(ep, location=root)
-    inst = e.instanceDirectory.location
+    return e, e.instanceDirectory.location
+
+
+def populate(exp_model, e, inst):
+    """Harness side: give every producer the stdout / files whose content the oracle knows."""
     for p in exp_model["producers"]:
         wd = e.instanceDirectory.workingDirectoryForComponent(p["stage"], p["name"])
         if os.path.normpath(wd) != os.path.normpath("%s/stages/stage%d/%s" % (inst, p["stage"], p["name"])):
@@ -58,7 +62,6 @@ def build(exp_model, root):
             os.makedirs(os.path.dirname(path), exist_ok=True)
             with open(path, "w") as f:
                 f.write(content)
-    return e, inst
 
 
 def class_key(exp_model, case, hz):
@@ -85,6 +88,11 @@ def judge_exp(exp_model, w, mode):
             w.count("experiments_not_instantiated")
             w.violation("valid experiment could not be instantiated: %s: %s" % (type(x).__name__, str(x)[:300]),
                         {"mode": mode, "exp": exp_model, "flowir": M.to_flowir(exp_model)}, finding_key=None)
+            return
+        try:
+            populate(exp_model, e, inst)
+        except Exception as x:
+            w.note_inconclusive("harness could not populate the instance: %r" % (x,))
             return
         w.count("experiments_built")
         for ci, case in enumerate(exp_model["cases"]):
@@ -195,7 +203,7 @@ def main():
     for mode, n in plan:
         for s in range(0, n, per):
             jobs.append({"mode": mode, "start": s, "count": min(per, n - s), "cases": 3})
-    vlib.fanout("checks.C10", jobs, c, timeout=600 if thorough else 240)
+    vlib.fanout("checks.C10", jobs, c, timeout=3000 if thorough else 600)
     total = sum(n for _, n in plan)
     c.floor("experiments_built", total - total // 20)
     c.floor("evaluations", total * 3 - total // 5)
